@@ -327,6 +327,9 @@ def run_property(pid, cfg, tier, seed, replay=None):
             if (pid, key) in kf and not key.startswith("bad-case"):
                 known_seen[key] = (kf[(pid, key)], recs[0])
                 st["known_findings_seen"] += len(recs)
+                # a known finding is a defect the model reproduces: if implementation and model differ on such a case the
+                # listed finding does not explain the observation, so it is still a correspondence break
+                bad_corr += [r for r in recs if r[1] != r[2]]
                 continue
             c, i, m, o = recs[0]
 
